@@ -300,3 +300,5 @@ Definition expected_src_buffer : string :=
   "{ if ( e -> depth == 0 ) { fprintf ( stderr , ""Cello Fatal Error: Exception Buffer Out of Bounds!\n"" ) ; abort ( ) ; } return e -> buffers [ e -> depth - 1 ] ; }".
 Definition expected_src_len : string :=
   "{ struct Exception * e = self ; return e -> depth ; }".
+Definition expected_src_error : string :=
+  "{ print_to ( $ ( File , stderr ) , 0 , ""\n"" ) ; print_to ( $ ( File , stderr ) , 0 , ""!!\t\n"" ) ; print_to ( $ ( File , stderr ) , 0 , ""!!\tUncaught %$\n"" , e -> obj ) ; print_to ( $ ( File , stderr ) , 0 , ""!!\t\n"" ) ; print_to ( $ ( File , stderr ) , 0 , ""!!\t\t %s\n"" , e -> msg ) ; print_to ( $ ( File , stderr ) , 0 , ""!!\t\n"" ) ; Exception_Backtrace ( ) ; exit ( EXIT_FAILURE ) ; }".
